@@ -305,6 +305,18 @@ def _call_builtin(f, selfobj, args, kwargs):
             return f(*args, **kwargs)
         if isinstance(selfobj, Sym):
             return f(*args, **kwargs)
+        import datetime as _dt
+
+        if isinstance(selfobj, _dt.datetime):
+            # a concrete datetime meeting symbolic arguments: continue in the calendar theory
+            lifted = cal.SDateTime(*cal.dt_fields(selfobj), selfobj.tzinfo, selfobj.fold)
+            return getattr(lifted, name)(*args, **kwargs)
+        if isinstance(selfobj, _dt.date):
+            return getattr(cal.SDate(selfobj.year, selfobj.month, selfobj.day), name)(*args, **kwargs)
+        if isinstance(selfobj, _dt.time):
+            lifted = cal.STime(selfobj.hour, selfobj.minute, selfobj.second, selfobj.microsecond,
+                               selfobj.tzinfo)
+            return getattr(lifted, name)(*args, **kwargs)
         raise Unsupported("method %s.%s with symbolic arguments" % (ts.__name__, name))
     mod = getattr(f, "__module__", None) or ""
     if mod in _NATIVE_OK_MODULES:
